@@ -109,6 +109,18 @@ extern "C"
 
     // ------------------------------------------------------------------ P-queue
     void *prog_queue_new() { return new igris::safe_queue<QItem>(); }
+    // the initializer-list constructor: the queue starts with n items of the pseudo producer `prod`
+    void *prog_queue_new_preloaded(int prod, int n)
+    {
+        switch (n)
+        {
+        case 1: return new igris::safe_queue<QItem>({QItem{prod, 0}});
+        case 2: return new igris::safe_queue<QItem>({QItem{prod, 0}, QItem{prod, 1}});
+        case 3: return new igris::safe_queue<QItem>({QItem{prod, 0}, QItem{prod, 1}, QItem{prod, 2}});
+        case 4: return new igris::safe_queue<QItem>({QItem{prod, 0}, QItem{prod, 1}, QItem{prod, 2}, QItem{prod, 3}});
+        default: return new igris::safe_queue<QItem>(std::initializer_list<QItem>{});
+        }
+    }
     void prog_queue_delete(void *q) { delete (igris::safe_queue<QItem> *)q; }
     void prog_queue_push(void *q, int prod, int seq)
     {
